@@ -1,6 +1,12 @@
 use std::collections::VecDeque;
+#[cfg(not(tiny_http_verif))]
 use std::sync::{Arc, Condvar, Mutex};
+#[cfg(not(tiny_http_verif))]
 use std::time::{Duration, Instant};
+#[cfg(tiny_http_verif)]
+use tiny_http_verif_rt::sync::{Arc, Condvar, Mutex};
+#[cfg(tiny_http_verif)]
+use tiny_http_verif_rt::time::{Duration, Instant};
 
 enum Control<T> {
     Elem(T),
